@@ -534,6 +534,27 @@ fn gen_stack(rng: &mut Rng, directed: Option<usize>) -> Stack {
     Stack { sys, users, plug, base_plug, n_ids, matrix, texts }
 }
 
+/// which `DictBuilder::new_user` / `LexiconReader::preload_pos` the tree has (the model's `PreVariant`):
+/// `all` = the pinned one preloads every POS of the base dictionary's grammar, `sys` = the repaired one (finding P1)
+/// preloads only its first `num_system_pos` entries.  Decided by reading the source the harness is built against;
+/// `VERIF_C12_PRE=all|sys` overrides (used to show that the other instance of the model does NOT fit a tree).
+fn impl_pre_variant() -> &'static str {
+    static P: std::sync::OnceLock<&'static str> = std::sync::OnceLock::new();
+    *P.get_or_init(|| {
+        match std::env::var("VERIF_C12_PRE").as_deref() { Ok("all") => return "all", Ok("sys") => return "sys", _ => {} }
+        let p = format!("{}/src/dic/build/lexicon.rs", crate::c07::repo_sudachi_dir());
+        match std::fs::read_to_string(p) {
+            Ok(src) => {
+                let code: String = src.lines().map(|l| l.split("//").next().unwrap_or("")).collect::<Vec<_>>().join("\n");
+                let f = code.split("fn preload_pos").nth(1).unwrap_or("");
+                let body: String = f.split("fn ").next().unwrap_or("").chars().filter(|c| !c.is_whitespace()).collect();
+                if body.contains(".take(") { "sys" } else { "all" }
+            }
+            Err(_) => "all",
+        }
+    })
+}
+
 fn gcsv(d: &GDict) -> String {
     let rows: Vec<Row> = d.rows.iter().map(|r| r.row.clone()).collect();
     csv_of(&rows, &pool_vec())
@@ -556,10 +577,11 @@ fn run_stack(run: &mut Run, idx: usize, rng: &mut Rng, directed: Option<usize>) 
     let sys_wire = dict_wire(&st.sys, &sys_cx, &mut it);
     let plug_wire = st.plug.calls.iter().map(|(a, p)| format!("{}:{}", if *a { "a" } else { "f" }, it.pos(p))).collect::<Vec<_>>().join(";");
     let users_wire = st.users.iter().map(|u| dict_wire(u, &user_cx, &mut it)).collect::<Vec<_>>().join("|");
-    let payload_head = format!("sysrows={} plug={} base={} users={}", sys_wire, plug_wire, if st.base_plug { "plug" } else { "sys" }, users_wire);
+    let payload_head = format!("sysrows={} plug={} base={} pre={} users={}", sys_wire, plug_wire, if st.base_plug { "plug" } else { "sys" }, impl_pre_variant(), users_wire);
     run.bump(&format!("stack:users:{}", k));
     run.bump(&format!("stack:plugcalls:{}", st.plug.calls.len()));
     run.bump(if st.base_plug { "stack:base:plug" } else { "stack:base:sys" });
+    run.bump(&format!("stack:pre:{}", impl_pre_variant()));
     let desc = format!("users={} base={} texts={:?}", k, if st.base_plug { "plug" } else { "sys" }, st.texts);
 
     // --- real pipeline
@@ -1054,6 +1076,7 @@ every word through LexiconSet::get_word_info and 2-3 texts tokenised in mode C w
 lexset: LexiconSet::new/append/lookup/get_word_info on 1..17 real lexicons with arbitrary POS offsets; wid: WordId packing at the 4/28-bit \
 boundaries; grammar: get_part_of_speech_id / register_pos called directly (handle_user_pos is crate-private: reached through the plugins of the stack cases) on a real Grammar (POS of 5, 6, 7 components). non-trivial = stack with >= 1 user dictionary using a POS the system dictionary does not have, lexset with >= 1 appended \
 lexicon, every wid; distinct by line".into();
+    run.extra.insert("variant_preload_pos".into(), serde_json::json!(impl_pre_variant()));
     let n = run.opts.count;
     const DIRECTED_STACK: usize = 8;
     const DIRECTED_LEXSET: usize = 4;
